@@ -37,7 +37,7 @@ THOROUGH_VARIANTS = 2
 
 FEATURES = ['sphere', 'conic', 'asphere', 'polynomial', 'chebyshev', 'mirror', 'catalogue-glass', 'abbe-glass', 'absorbing-ideal',
             'simple-coating', 'fresnel-coating', 'lambertian', 'gaussian-bsdf', 'aperture', 'obscuration', 'vignetting', 'pol-state',
-            'unpolarized', 'telecentric', 'pickup', 'solve', 'decenter-tilt', 'ranged-glass', 'coated-mirror', 'pickup-object-gap', 'flat-with-conic']
+            'unpolarized', 'telecentric', 'pickup', 'solve', 'decenter-tilt', 'ranged-glass', 'coated-mirror', 'pickup-object-gap', 'flat-with-conic', 'custom-fresnel']
 EDITS = ['set_thickness', 'set_thickness0', 'set_radius', 'set_conic', 'set_index', 'scale_system', 'image_solve', 'update', 'optimise']
 
 
@@ -94,6 +94,8 @@ def make_lens(features, v):
         s2 = dict(s2, coating=['simple', 0.9, 0.1])
     if 'fresnel-coating' in f:
         s1 = dict(s1, coating='fresnel')
+    if 'custom-fresnel' in f:
+        s2 = dict(s2, coating=['fresnel-media', 1.0, 2.0])
     if 'aperture' in f:
         s2 = dict(s2, aperture=[0.45 * p['epd']])
     if 'obscuration' in f:
@@ -103,7 +105,7 @@ def make_lens(features, v):
     tele = 'telecentric' in f
     finite = tele or 'pickup-object-gap' in f
     pol = None
-    if 'pol-state' in f or ('fresnel-coating' in f and 'unpolarized' not in f):
+    if 'pol-state' in f or (('fresnel-coating' in f or 'custom-fresnel' in f) and 'unpolarized' not in f):
         pol = [1.0, 0.5, 0.0, 0.3]
     if 'unpolarized' in f:
         pol = 'unpolarized'
